@@ -30,7 +30,11 @@ RULE = (
     "concurrent send_message calls, connect refused, connect timeout; message traffic from the peer and from the "
     "library before and after the ending; optionally a server EOF/reset with auto-reconnect; optionally "
     "state-change listeners that take 1..2 loop iterations and/or a listener that takes 0..4 more iterations or 1..5 "
-    "ms on one state of peer connections, mostly CONNECTED (the event bus supports coroutine listeners). ENUMERATED "
+    "ms on one state of peer connections, mostly CONNECTED (the event bus supports coroutine listeners); optionally "
+    "a listener that itself awaits event.connection.disconnect() while CONNECTING / CONNECTED / CLOSING of an incoming "
+    "and/or outgoing peer connection is being reported; users without listening port (0/0 in GetPeerAddress / "
+    "ConnectToPeer). A fixed list of plain cases (listener-initiated disconnects per state x direction x port, "
+    "ConnectToPeer for 0/0, x/0, 0/x) is always run. ENUMERATED "
     "fault positions: for every base shape (direction x mode x api x direct/indirect outcome x type/port, plus "
     "slow-listener shapes) every loop iteration j = 0..J+1 of the attempt (J measured on the fault-free run; "
     "iterations are counted by a hook on the loop so that virtual time still advances, i.e. every await of the "
@@ -47,7 +51,10 @@ RULE = (
     "{connections last reported CONNECTING whose connect() is still executing in a live task}, no registered "
     "connection is an orphan (CONNECTED, never initialised, owned by no live task), every library-side socket still "
     "open belongs to a registered CONNECTED connection; a connection last reported CLOSED has no open socket, its "
-    "remote endpoint has seen EOF/RST one virtual second after the report, and send_data() on it raises; at B every connection that was ever reported has CLOSED "
+    "remote endpoint has seen EOF/RST one virtual second after the report, and send_data() on it raises; a "
+    "listener-initiated disconnect() returns (or its task is cancelled) within the 200 s horizon and every library "
+    "call of the driver returns within 60 virtual seconds (a dead-locked library ends as a violation, not as a hang); "
+    "a relayed ConnectToPeer that does not lead to a connection is answered with CannotConnect; at B every connection that was ever reported has CLOSED "
     "exactly once, as the last report; the server connection alone may restart with CONNECTING after CLOSED. "
     "Non-trivial = a connection ended before CONNECTED / before its init message, or a fault position was hit while "
     "the attempt was running, or two endings overlapped (two disconnect calls, disconnect in the iteration of an "
@@ -85,7 +92,10 @@ SYNCS = ['idle', 'before-arrival', 'after-arrival']
 ARRIVALS = ['data', 'eof', 'reset']
 FAULTS = ['cancel', 'disconnect', 'netdc']
 # which of the user's ports the server advertises: only the one selected by 'obf' (primary) or both
-ADVS = ['one', 'both']
+ADVS = ['one', 'both', 'none']     # 'none': the user has no listening port (0 / 0 on the wire)
+# a ConnectionStateChangedEvent listener that itself awaits event.connection.disconnect() for one reported state
+LDC_STATES = ['CONNECTED', 'CONNECTING', 'CLOSING']
+LDC_WHO = ['any', 'in', 'out']
 # which advertised port carries a value that does not fit in 16 bits (the wire field is a uint32)
 OOBS = ['none', 'primary', 'alt', 'both']
 OOB_PORTS = [70000, 65536, 4294967295]
@@ -125,7 +135,7 @@ def conn_strategy(draw, i):
     else:
         spec['direct'] = draw(st.sampled_from(['accept', 'accept'] + DIRECT))
         spec['direct_alt'] = draw(st.sampled_from(['accept', 'accept'] + DIRECT))
-        spec['adv'] = draw(st.sampled_from(ADVS))
+        spec['adv'] = draw(st.sampled_from(['one', 'one', 'both', 'both', 'none']))
         spec['oob'] = draw(st.sampled_from(['none'] * 5 + OOBS))
         spec['oob_port'] = draw(st.integers(0, len(OOB_PORTS) - 1))
         spec['indirect'] = draw(st.sampled_from(INDIRECT))
@@ -152,6 +162,9 @@ def case_strategy(draw):
         'fault': fault,
         'server': server,
         'listener_yield': draw(st.sampled_from([0, 0, 0, 1, 2])),
+        'listener_dc': draw(st.none() | st.none() | st.none() | st.fixed_dictionaries({
+            'state': st.sampled_from(['CONNECTED', 'CONNECTED'] + LDC_STATES), 'who': st.sampled_from(LDC_WHO),
+            'reason': st.sampled_from(REASONS)})),
         'slow': draw(st.none() | st.fixed_dictionaries({
             'state': st.sampled_from(['CONNECTED', 'CONNECTED'] + SLOW_STATES),
             'iters': st.integers(0, 4), 'ms': st.sampled_from([0, 0, 1, 3, 5])})),
@@ -243,6 +256,42 @@ def base_shapes(tier):
                     dir='out', api='create', direct=direct, indirect=indirect, direct_delay=2, indirect_delay=3)],
                     'server': None, 'listener_yield': ly, 'teardown_at_a': False})
     return shapes
+
+
+def extra_cases(tier):
+    """Plain (fault-free) cases that are always run: listener-initiated disconnects, users without listening port."""
+    cases = []
+    base = {'server': None, 'listener_yield': 0, 'teardown_at_a': False, 'fault': None}
+    for state in LDC_STATES:
+        for reason in ('REQUESTED', 'UNKNOWN'):
+            ldc = {'state': state, 'who': 'any', 'reason': reason}
+            for typ, obf in (('P', False), ('P', True), ('D', True)):
+                cases.append(dict(base, mode='race', listener_dc=ldc, conns=[
+                    _base_conn(dir='in', typ=typ, obf=obf, init='ok', init_at=1, ending='eof')]))
+            for mode in ('race', 'fallback'):
+                for api, indirect in (('create', 'cannot'), ('create_addr', 'pierce')):
+                    cases.append(dict(base, mode=mode, listener_dc=ldc, conns=[_base_conn(
+                        dir='out', api=api, direct='accept', indirect=indirect, direct_delay=2, indirect_delay=4,
+                        ending='local')]))
+            cases.append(dict(base, mode='race', listener_dc=ldc, conns=[_base_conn(
+                dir='ctp', api='create', direct='accept', indirect='silent', direct_delay=2, indirect_delay=3)]))
+            # a welcome connection before and after the one the listener closes
+            cases.append(dict(base, mode='race', listener_dc=dict(ldc, who='in'), conns=[
+                _base_conn(dir='out', user=0, api='create', direct='accept', indirect='cannot', direct_delay=2,
+                           indirect_delay=3, ending='local'),
+                _base_conn(dir='in', user=1, start=1, init='ok', init_at=0, ending='none'),
+                _base_conn(dir='out', user=2, start=2, api='create', direct='accept', indirect='cannot', direct_delay=2,
+                           indirect_delay=3, ending='eof')]))
+    for adv, obf in (('none', False), ('none', True), ('one', False), ('one', True)):
+        for direct in ('accept', 'refuse'):
+            for n in (1, 2):
+                cases.append(dict(base, mode='race', conns=[_base_conn(
+                    dir='ctp', user=k, start=k, obf=obf, adv=adv, api='create', direct=direct, indirect='silent',
+                    direct_delay=2, indirect_delay=3) for k in range(n)]))
+    for mode in ('race', 'fallback'):
+        cases.append(dict(base, mode=mode, conns=[_base_conn(
+            dir='out', adv='none', api='create', direct='accept', indirect='pierce', direct_delay=2, indirect_delay=3)]))
+    return cases
 
 
 def fault_kinds_for(shape):
@@ -344,6 +393,10 @@ def _sanitise(case):
         'fault': fault,
         'server': server,
         'listener_yield': _int(case.get('listener_yield'), 0, 2),
+        'listener_dc': ({'state': _pick(case['listener_dc'].get('state'), LDC_STATES),
+                         'who': _pick(case['listener_dc'].get('who'), LDC_WHO),
+                         'reason': _pick(case['listener_dc'].get('reason'), REASONS)}
+                        if isinstance(case.get('listener_dc'), dict) else None),
         'slow': ({'state': _pick(case['slow'].get('state'), SLOW_STATES), 'iters': _int(case['slow'].get('iters'), 0, 6),
                   'ms': _int(case['slow'].get('ms'), 0, 20)} if isinstance(case.get('slow'), dict) else None),
         'teardown_at_a': bool(case.get('teardown_at_a')),
@@ -408,6 +461,7 @@ class _Rec:
         self.send_after_closed = None
         self.cancelled_in_listener = []
         self.send_data_after_closed = None
+        self.listener_dc = None             # ['started'|'returned', state, time] of the listener-initiated disconnect
         self.reporting = []                 # states whose (slow) listener invocation is suspended right now
         self.closed_during_connected_report = False
 
@@ -436,7 +490,7 @@ def _execute(case):
     recs = {}            # id(obj) -> _Rec
     order = []           # recs in order of first sight
     notes = {'outcomes': {}, 'fault_fired': None, 'fault_live': False, 'checkpoints': [], 'overlap': False,
-             'attempt_iters': [0] * len(conns), 'exceptions': []}
+             'attempt_iters': [0] * len(conns), 'exceptions': [], 'hung': []}
 
     def rec_of(obj):
         r = recs.get(id(obj))
@@ -463,6 +517,7 @@ def _execute(case):
         world.clients.append(types.SimpleNamespace(settings=settings))
         ly = c['listener_yield']
         slow = c['slow']
+        ldc = c['listener_dc']
 
         async def on_state(event):
             r = rec_of(event.connection)
@@ -485,6 +540,18 @@ def _execute(case):
                         await asyncio.sleep(0)
                     if slow['ms']:
                         await asyncio.sleep(slow['ms'] / 1000.0)
+                if ldc is not None and ldc['state'] == event.state.name and isinstance(conn, PeerConnection) \
+                        and r.listener_dc is None and ldc['who'] in ('any', 'in' if conn.incoming else 'out'):
+                    # the listener itself closes the connection whose state is being reported (e.g. a block list)
+                    r.listener_dc = ['started', event.state.name, round(loop.time(), 6)]
+                    try:
+                        await conn.disconnect(getattr(CloseReason, ldc['reason']))
+                    except asyncio.CancelledError:
+                        r.listener_dc[0] = 'cancelled'   # the reporting task was cancelled meanwhile: it did end
+                        raise
+                    except Exception as exc:   # disconnect is documented not to raise
+                        notes['exceptions'].append(('disconnect(in listener)', type(exc).__name__, repr(exc)))
+                    r.listener_dc[0] = 'returned'
             except asyncio.CancelledError:
                 # the task that reports the state was cancelled while this (slow) listener was suspended
                 r.cancelled_in_listener.append(event.state.name)
@@ -552,6 +619,8 @@ def _execute(case):
             both = spec['adv'] == 'both'
             clear = p.port if (both or not spec['obf']) else 0
             obf = p.obf_port if (both or spec['obf']) else 0
+            if spec['adv'] == 'none':
+                clear = obf = 0
             bad = OOB_PORTS[spec['oob_port']]
             primary_is_obf = spec['obf']
             if spec['oob'] in ('primary', 'both'):
@@ -670,7 +739,7 @@ def _execute(case):
                 peer_send(10 + k)
                 await asyncio.sleep(TICK / 5)
             for k in range(spec['local_pre']):
-                await guarded_send(conn, traffic_msg(typ, 20 + k))
+                await bounded(guarded_send(conn, traffic_msg(typ, 20 + k)), 'send_message')
             await asyncio.sleep(spec['end_at'] * TICK + 0.0011)
             ending = spec['ending']
             reasons = spec['reasons']
@@ -877,6 +946,16 @@ def _execute(case):
                     pass
             loop.call_at(t0 + c['server']['at'] * TICK + 0.0007, server_fault)
 
+        async def bounded(coro, api, limit=60.0):
+            """Await a library call of the driver, but never for ever (a dead-locked library must end as a violation)."""
+            t = asyncio.ensure_future(coro)
+            await asyncio.wait({t}, timeout=limit)
+            if not t.done():
+                notes['hung'].append(api)
+                background.append(t)
+                return False
+            return True
+
         def snapshot(label):
             live = _connecting_objects(loop, DataConnection)
             reg = list(network.peer_connections)
@@ -929,7 +1008,7 @@ def _execute(case):
         await asyncio.sleep(A_SETTLE)
         snapshot('A')
         if c['teardown_at_a']:
-            await guarded_netdc()
+            await bounded(guarded_netdc(), 'network.disconnect')
             await asyncio.sleep(0.0503)
             snapshot('A-teardown')
         await asyncio.sleep(B_SETTLE)
@@ -941,21 +1020,27 @@ def _execute(case):
                 if tr is None and r.obj._writer is not None:
                     tr = r.tr = r.obj._writer.transport
                 before = tr.bytes_written if tr is not None else 0
-                await guarded_send(r.obj, traffic_msg('P' if r.obj.connection_type == 'P' else 'D', 99))
-                # send_data has no "is closing" short cut: on a closed connection it has to fail
-                try:
-                    await r.obj.send_data(b'sent-after-closed')
-                    r.send_data_after_closed = 'returned'
-                except ConnectionWriteError:
-                    r.send_data_after_closed = 'raised'
-                except Exception as exc:
-                    r.send_data_after_closed = 'raised'
-                    notes['exceptions'].append(('send_data', type(exc).__name__, repr(exc)))
+                await bounded(guarded_send(r.obj, traffic_msg('P' if r.obj.connection_type == 'P' else 'D', 99)),
+                              'send_message')
+
+                async def send_data(r=r):
+                    # send_data has no "is closing" short cut: on a closed connection it has to fail
+                    try:
+                        await r.obj.send_data(b'sent-after-closed')
+                        r.send_data_after_closed = 'returned'
+                    except ConnectionWriteError:
+                        r.send_data_after_closed = 'raised'
+                    except Exception as exc:
+                        r.send_data_after_closed = 'raised'
+                        notes['exceptions'].append(('send_data', type(exc).__name__, repr(exc)))
+                await bounded(send_data(), 'send_data')
                 await asyncio.sleep(0.0101)
                 r.send_after_closed = (tr.bytes_written - before) if tr is not None else 0
-        await guarded_netdc()
+        await bounded(guarded_netdc(), 'network.disconnect')
         await asyncio.sleep(1.0009)
         snapshot('final')
+        # CannotConnect requests the server received (answers to relayed ConnectToPeer requests)
+        notes['cannot_connect'] = sorted(m.ticket for m in world.server.received(M.CannotConnect.Request))
         for t in background:
             if not t.done():
                 t.cancel()
@@ -1031,6 +1116,15 @@ def _execute(case):
 
     # 2. the registry at every checkpoint
     explained = set()      # connections whose missing CLOSED is explained by a root cause reported here
+    for r in order:
+        if isinstance(r.obj, PeerConnection) and r.listener_dc is not None and r.listener_dc[0] == 'started' \
+                and id(r.obj) not in contaminated:
+            explained.add(id(r.obj))
+            res.violate(f'C10/listener-disconnect-never-completes:{r.listener_dc[1]}:{direction(r)}',
+                        f'{desc(r)} reported {[s[0] for s in r.states]}: a ConnectionStateChangedEvent listener awaited '
+                        f'event.connection.disconnect() while {r.listener_dc[1]} was being reported (virtual time '
+                        f'{r.listener_dc[2]}); more than {B_SETTLE:.0f} virtual seconds later the call has not '
+                        f'returned, state is {r.obj.state.name} ({ctx_txt})')
     reported = set()
 
     def once(k, kind, detail):
@@ -1155,6 +1249,18 @@ def _execute(case):
                         f'not been reported CLOSED ({ctx_txt})')
     for api, tname, text in notes['exceptions']:
         res.violate(f'C10/unexpected-exception:{tname}@{api}', text)
+    for api in sorted(set(notes['hung'])):
+        res.violate(f'C10/call-never-returns:{api}', f'{api} did not return within 60 virtual seconds ({ctx_txt})')
+    # a relayed ConnectToPeer that did not lead to a connection is answered with CannotConnect (network.py)
+    if fault is None and c['server'] is None and c['listener_dc'] is None:
+        for i, spec in enumerate(conns):
+            if spec['dir'] == 'ctp' and notes['outcomes'].get(i) == 'ctp-not-established' \
+                    and sum(1 for x in conns if x['user'] == spec['user']) == 1 \
+                    and (4000 + i) not in notes.get('cannot_connect', []):
+                res.violate('C10/ctp-failed-without-cannot-connect',
+                            f'ConnectToPeer ticket {4000 + i} for user u{spec["user"]} (advertised {spec["adv"]}, '
+                            f'direct {spec["direct"]}) did not lead to an established connection, but the server '
+                            f'received CannotConnect only for {notes.get("cannot_connect")} ({ctx_txt})')
 
     # ---- classification ---------------------------------------------------------------------
     fault_live = fault is not None and notes['fault_fired'] is not None and notes['fault_live']
@@ -1221,6 +1327,7 @@ def _task_mentions(loop, conn):
 
 def run_shard(ctx):
     ctx.enumerate(enumerated_cases(ctx.tier))
+    ctx.enumerate(extra_cases(ctx.tier))
     n = 500 if ctx.tier == 'quick' else 16000
     ctx.explore(case_strategy(), n)
 
